@@ -40,6 +40,7 @@ LIB_AXIOMS = {
     'dict': 'dict semantics for membership, item get/set/del, truthiness; iteration visits every item once (order not modelled)',
     'next': 'next(<genexp over dict items>, default) returns the element for some item satisfying the conditions, or default if none does',
     'list.append': 'list.append adds at the end',
+    'int.to_bytes': "n.to_bytes(k, 'little') raises OverflowError unless 0 <= n < 256^k, else returns the k little-endian digits le_bytes(n, k)",
     'open': 'open()/aiofiles.open() used as a context manager yields a file object or raises OSError; the file is closed on exit',
     'async_timeout': 'A-TIMEOUTCTX: inside `async with async_timeout.timeout(t)` an await is cancelled with asyncio.TimeoutError once t seconds have passed; the block is left within max(t,0) seconds',
     'os': 'os.fstat/os.listdir/os.path.isdir/os.getlogin/socket.gethostname return unconstrained values (or raise OSError)',
@@ -240,7 +241,14 @@ class World(object):
         finally:
             ex.cur_module, ex.env, ex.mode = saved
 
+    LIB_MODULES = {'cryptography.hazmat.primitives.serialization', 'cryptography.hazmat.primitives.hashes',
+                   'cryptography.hazmat.primitives.asymmetric.rsa', 'cryptography.hazmat.primitives.asymmetric.padding',
+                   'cryptography.hazmat.primitives.asymmetric.utils', 'Crypto.Hash.SHA1', 'Crypto.PublicKey.RSA', 'Crypto.Signature.pkcs1_15',
+                   'rsa.pkcs1', 'pyasn1.codec.der.decoder', 'pyasn1.type.univ'}
+
     def lib_object(self, dotted):
+        if dotted in self.LIB_MODULES:
+            return VModule(dotted)
         if dotted in ('threading.Lock', 'asyncio.Lock'):
             return VClass('lib:Lock')
         if dotted in ('asyncio.Queue', 'queue.Queue', 'Queue.Queue'):
@@ -267,8 +275,11 @@ class World(object):
             return VTuple([VInt(3), VInt(12), VInt(1)])
         if name == 'os' and attr == 'path':
             return VModule('os.path')
-        if name in ('struct', 'socket', 'asyncio', 'usb1', 'select', 'io') and attr in ('error', 'TimeoutError', 'USBError', 'timeout', 'UnsupportedOperation', 'QueueEmpty'):
+        if name in ('struct', 'socket', 'asyncio', 'usb1', 'select', 'io') and attr in ('error', 'TimeoutError', 'USBError', 'USBErrorNotFound', 'USBErrorTimeout',
+                                                                                        'timeout', 'UnsupportedOperation', 'QueueEmpty'):
             return VClass('%s.%s' % (name, attr))
+        if name == 'usb1' and attr in ('ENDPOINT_DIR_MASK', 'USB_ENDPOINT_DIR_MASK'):
+            return VInt(0x80)
         if name == 'socket' and attr in ('SHUT_RDWR',):
             return VInt(2)
         if name.startswith('adb_shell.'):
@@ -404,6 +415,13 @@ class World(object):
         # spec functions (contracts only)
         if ex.mode == 'spec' and isinstance(node.func, ast.Name) and node.func.id in SPEC_FUNCS and node.func.id not in ex.env:
             return SPEC_FUNCS[node.func.id](self, ex, node)
+        if isinstance(node.func, ast.Attribute) and isinstance(node.func.value, ast.Name) and node.func.value.id == '_LOGGER' \
+                and node.func.value.id not in ex.env:
+            self.use('logging')
+            return NONE                      # A-LOG: dropped together with its argument expressions
+        if isinstance(node.func, ast.Attribute) and isinstance(node.func.value, ast.Name) and node.func.value.id == 'warnings' and node.func.attr == 'warn':
+            self.use('logging')
+            return NONE
         if isinstance(node.func, ast.Name) and node.func.id == 'super':
             raise Unsupported('super() outside __init__ delegation')
         # special syntactic forms
@@ -1121,10 +1139,8 @@ def bi_int(w, ex, args, kwargs, node):
     if isinstance(v, VBool):
         return VInt(to_int(v))
     if isinstance(v, VReal):
-        if ex.mode != 'spec':
-            if not ex.branch(v.term >= 0):
-                raise Unsupported('int() of a negative real')
-        return VInt(z3.ToInt(v.term))
+        # int() truncates toward zero
+        return VInt(z3.If(v.term >= 0, z3.ToInt(v.term), -z3.ToInt(-v.term)))
     raise Unsupported('int(%r)' % (v,))
 
 
@@ -1272,7 +1288,10 @@ def bi_struct_pack(w, ex, args, kwargs, node):
                 raise RaiseSig(VExc('struct.error'))
             # 'Ns': truncated / zero padded to N bytes
             ln = z3.Length(v.term)
-            out.append(z3.If(ln >= size, z3.SubSeq(v.term, 0, size), z3.Concat(v.term, SF.zeros(size - ln))))
+            if ex.cheap_entails(ln == size):
+                out.append(v.term)
+            else:
+                out.append(z3.If(ln >= size, z3.SubSeq(v.term, 0, size), z3.Concat(v.term, SF.zeros(size - ln))))
     return VBytes(z3.Concat(*out) if len(out) > 1 else out[0], False)
 
 
@@ -1466,6 +1485,11 @@ def bi_async_timeout(w, ex, args, kwargs, node):
     return VCtx(enter, exit_)
 
 
+def bi_platform_system(w, ex, args, kwargs, node):
+    w.use('os')
+    return VStr(z3.Const(ex.fresh_name('platform'), Bytes))
+
+
 def bi_namedtuple(w, ex, args, kwargs, node):
     return VClass('lib:namedtuple')
 
@@ -1478,7 +1502,7 @@ BUILTINS = {
     'len': bi_len, 'min': _minmax(True), 'max': _minmax(False), 'int': bi_int, 'bool': bi_bool, 'bytes': bi_bytes,
     'bytearray': bi_bytearray, 'isinstance': bi_isinstance, 'sum': bi_sum, 'hasattr': bi_hasattr, 'ord': bi_ord, 'str': bi_str,
     'struct.pack': bi_struct_pack, 'struct.unpack': bi_struct_unpack, 'struct.calcsize': bi_struct_calcsize,
-    'time.time': bi_time_time, 'contextmanager': bi_contextmanager, 'socket.gethostname': bi_gethostname, 'os.fstat': bi_fstat, 'namedtuple': bi_namedtuple, 'open': bi_open, 'async_timeout.timeout': bi_async_timeout,
+    'time.time': bi_time_time, 'contextmanager': bi_contextmanager, 'socket.gethostname': bi_gethostname, 'os.fstat': bi_fstat, 'namedtuple': bi_namedtuple, 'open': bi_open, 'async_timeout.timeout': bi_async_timeout, 'platform.system': bi_platform_system,
     'aiofiles.open': bi_open, 'os.path.isdir': bi_isdir, 'os.listdir': bi_listdir, 'os.path.join': bi_pathjoin,
 }
 
@@ -1515,6 +1539,11 @@ def m_str_encode(w, ex, base, args, kwargs, node):
 def m_str_format(w, ex, base, args, kwargs, node):
     w.use('str.format')
     c = base.concrete()
+    if c is not None and kwargs and not args and all(isinstance(v, (VInt, VStr)) and v.concrete() is not None for v in kwargs.values()):
+        try:
+            return VStr(c.format(**{k: v.concrete() for k, v in kwargs.items()}))
+        except (KeyError, IndexError, ValueError):
+            raise Unsupported('format template %r' % c)
     if c is None or kwargs:
         raise Unsupported('format on symbolic template')
     parts = c.split('{}')
@@ -1535,13 +1564,49 @@ def m_str_format(w, ex, base, args, kwargs, node):
     return VStr(z3.Concat(*out) if len(out) > 1 else (out[0] if out else EMPTY))
 
 
+LEB = z3.Function('le_bytes', IntS, IntS, Bytes)
+BEB = z3.Function('be_bytes', IntS, IntS, Bytes)
+STRFN = {}
+
+
 def m_int_to_bytes(w, ex, base, args, kwargs, node):
-    raise Unsupported('int.to_bytes')
+    """int.to_bytes(length, 'little'): OverflowError unless 0 <= n < 256**length; else the `length` little-endian digits."""
+    w.use('int.to_bytes')
+    length = args[0]
+    order = args[1].concrete() if len(args) > 1 and isinstance(args[1], VStr) else None
+    lc = length.concrete() if isinstance(length, VInt) else None
+    if order not in ('little', 'big') or lc is None or lc <= 0:
+        raise Unsupported('int.to_bytes(%r, %r)' % (lc, order))
+    ok = z3.And(base.term >= 0, base.term < 256 ** lc)
+    if ex.mode != 'spec' and not ex.branch(ok):
+        raise RaiseSig(VExc('OverflowError'))
+    t = (LEB if order == 'little' else BEB)(base.term, z3.IntVal(lc))
+    ex.assume(z3.Length(t) == lc)
+    return VBytes(t, False)
+
+
+def sp_le_bytes(w, ex, node):
+    n, k = _spec_args(ex, node)
+    return VBytes(LEB(to_int(n), to_int(k)), False)
 
 
 def m_seq_append(w, ex, base, args, kwargs, node):
     w.use('list.append')
     raise Unsupported('append on a symbolic list must go through the list hook')
+
+
+def _opaque_str_method(name, to_bool=False):
+    """A pure str method without a precise axiom: an uninterpreted function of the receiver (and of concrete arguments)."""
+    def m(w, ex, base, args, kwargs, node):
+        w.use('str.%s' % name)
+        key = name + '(' + ','.join(repr(a.concrete()) if isinstance(a, (VStr, VInt, VBytes)) and a.concrete() is not None else '?' for a in args) + ')'
+        if '?' in key or kwargs:
+            raise Unsupported('str.%s with symbolic arguments' % name)
+        if key not in STRFN:
+            STRFN[key] = z3.Function('str.' + key, Bytes, BoolS if to_bool else Bytes)
+        r = STRFN[key](base.term)
+        return VBool(r) if to_bool else type(base)(r) if isinstance(base, VStr) else VBytes(r, False)
+    return m
 
 
 def m_constdict_get(w, ex, base, args, kwargs, node):
@@ -1554,6 +1619,26 @@ METHODS = {
     ('VBytes', 'decode'): m_bytes_decode,
     ('VStr', 'encode'): m_str_encode,
     ('VStr', 'format'): m_str_format,
+    ('VInt', 'to_bytes'): m_int_to_bytes,
+    ('VStr', 'strip'): _opaque_str_method('strip'),
+    ('VStr', 'lstrip'): _opaque_str_method('lstrip'),
+    ('VStr', 'rstrip'): _opaque_str_method('rstrip'),
+    ('VStr', 'lower'): _opaque_str_method('lower'),
+    ('VStr', 'upper'): _opaque_str_method('upper'),
+    ('VStr', 'replace'): _opaque_str_method('replace'),
+    ('VStr', 'startswith'): _opaque_str_method('startswith', True),
+    ('VStr', 'endswith'): _opaque_str_method('endswith', True),
+    ('VStr', 'title'): _opaque_str_method('title'),
+    ('VBytes', 'strip'): _opaque_str_method('strip'),
+    ('VBytes', 'lstrip'): _opaque_str_method('lstrip'),
+    ('VBytes', 'rstrip'): _opaque_str_method('rstrip'),
+    ('VBytes', 'lower'): _opaque_str_method('lower'),
+    ('VBytes', 'upper'): _opaque_str_method('upper'),
+    ('VBytes', 'replace'): _opaque_str_method('replace'),
+    ('VBytes', 'startswith'): _opaque_str_method('startswith', True),
+    ('VBytes', 'endswith'): _opaque_str_method('endswith', True),
+    ('VBytes', 'title'): _opaque_str_method('title'),
+
     ('VConstDict', 'get'): m_constdict_get,
 }
 
@@ -1784,7 +1869,7 @@ SPEC_FUNCS = {
     'D_cmd': sp_D(SF.D_cmd, lambda t: VBytes(t, False)), 'D_a0': sp_D(SF.D_a0, VInt), 'D_a1': sp_D(SF.D_a1, VInt),
     'D_data': sp_D(SF.D_data, lambda t: VBytes(t, False)), 'catD': sp_catD,
     'FS_id': sp_D(SF.FS_id, lambda t: VBytes(t, False)), 'FS_data': sp_D(SF.FS_data, lambda t: VBytes(t, True)), 'FS_w': sp_FS_w, 'catFS': sp_catFS,
-    'asbytearray': sp_asbytearray, 'SB': sp_SB, 'listdir_at': sp_listdir_at, 'listdir_len': sp_listdir_len, 'pathjoin': sp_pathjoin,
+    'asbytearray': sp_asbytearray, 'SB': sp_SB, 'le_bytes': sp_le_bytes, 'listdir_at': sp_listdir_at, 'listdir_len': sp_listdir_len, 'pathjoin': sp_pathjoin,
     'isdir': sp_isdir,
 }
 
